@@ -8,6 +8,7 @@ import (
 	"strings"
 
 	"github.com/wokdav/gopki/generator/cert"
+	"github.com/wokdav/gopki/generator/db"
 
 	"verif/mc/drive"
 	"verif/mc/engine"
@@ -120,6 +121,12 @@ func c14Enumerate(tier string, yield func(any)) {
 	for _, alg := range []string{"RSA-2048", "P-256", "P-521", "brainpoolP256r1", "brainpoolP512t1", "RSA-1024", "P-224", "brainpoolP384r1"} {
 		emit(c14Case{Origin: "csr", KeyFix: FixtureForAlg(alg, 0), CSR: true})
 	}
+	// an entity without issuer whose file holds only a request: it cannot be self-signed, and no key may be invented for it
+	for _, alg := range []string{"P-256", "RSA-2048", "brainpoolP256r1"} {
+		for _, seq := range [][]int{{}, {2}} {
+			yield(&c14Case{Origin: "csr-root", KeyFix: FixtureForAlg(alg, 0), CSR: true, Seq: seq})
+		}
+	}
 	// keys of tools that write the scalar without its leading zero octets (old OpenSSL)
 	for i := range refx509.Curves {
 		for l := 0; l < 2; l++ {
@@ -177,8 +184,63 @@ func c14KeyPEM(c *c14Case) ([]byte, *refx509.PrivateKey, error) {
 	return refx509.EncodePem("PRIVATE KEY", der), k, nil
 }
 
+// c14CSRRoot: root.yaml without issuer, root.pem = CERTIFICATE REQUEST only, plus an ordinary child.
+func c14CSRRoot(x *engine.Ctx, c *c14Case) {
+	key, err := refx509.ParsePKCS8(FixtureKeyDER(c.KeyFix))
+	if err != nil {
+		x.Cap("fixture: " + err.Error())
+		return
+	}
+	reqPEM := refx509.EncodePem("CERTIFICATE REQUEST", refx509.BuildCSR(key, "root request", nil))
+	d := &Dir{Certs: []*refcfg.CertCfg{{Path: "root.yaml", Subject: "CN=Request Root", KeyAlg: key.Describe()}, {Path: "child.yaml", Subject: "CN=Child", Issuer: "root", KeyAlg: "P-224"}}}
+	w := simfs.New(simfs.TickPerWrite)
+	d.Render(w)
+	w.Put("root.pem", reqPEM)
+	x.Nontrivial(fmt.Sprintf("csr-root %s %v", c.KeyFix, c.Seq))
+	x.State(fmt.Sprintf("csr-root %s %v", c.KeyFix, c.Seq))
+	strats := []db.UpdateStrategy{drive.Default}
+	if len(c.Seq) > 0 {
+		strats = append(strats, drive.All)
+	}
+	for _, st := range strats {
+		res := drive.Run(w, st, nil)
+		x.Transition(1)
+		if res.Panic != "" {
+			x.Violation("C14/csr-root/panic/"+res.PanicSite, res.Panic)
+			return
+		}
+		f := w.Files["root.pem"]
+		if f == nil {
+			x.Violation("C14/csr-root/file-removed", "root.pem is gone")
+			return
+		}
+		pf := refx509.SplitPem(f.Data)
+		if pf.NumKeys > 0 {
+			x.Violation("C14/csr-root/private-key-invented", fmt.Sprintf("strategy %05b (run ok=%v): a PRIVATE KEY block was written next to the request of an entity that has no key", int(st), res.OK()))
+			return
+		}
+		if pf.NumReqs != 1 || !bytes.Contains(f.Data, bytes.TrimSpace(reqPEM)) {
+			x.Violation("C14/csr-root/request-dropped-or-changed", fmt.Sprintf("strategy %05b (run ok=%v): the request is no longer in the file unchanged", int(st), res.OK()))
+			return
+		}
+		if pf.CertDER != nil {
+			// a certificate for a request-only root could only be self-signed with a key nobody has
+			cc, err := refx509.ParseCert(pf.CertDER)
+			if err == nil && !bytes.Equal(cc.SPKIRaw, refx509.SPKIFor(key)) {
+				x.Violation("C14/csr-root/certificate-not-for-the-request-key", "the certificate written for the request-only root carries another public key")
+				return
+			}
+		}
+	}
+	x.Outcome("csr-root: request kept, no key written")
+}
+
 func c14Exec(x *engine.Ctx, cc any) {
 	c := cc.(*c14Case)
+	if c.Origin == "csr-root" {
+		c14CSRRoot(x, c)
+		return
+	}
 	keyPEM, key, err := c14KeyPEM(c)
 	if err != nil {
 		x.Cap("fixture: " + err.Error())
